@@ -116,6 +116,13 @@ impl<'a> TokenStream for SymStream<'a> {
     }
 }
 
+/// true while running under the solver with stubs applied (set by the RandomState stub);
+/// false in kani's native concrete playback, where no stub is applied
+pub static mut G_STUBS_ON: bool = false;
+
 pub fn fixed_random_state() -> std::hash::RandomState {
+    unsafe {
+        G_STUBS_ON = true;
+    }
     unsafe { std::mem::transmute::<[u64; 2], std::hash::RandomState>([0u64; 2]) }
 }
